@@ -330,12 +330,16 @@ class Item:
             res.append((mo.group(1), s, j, match_brace(self.m, j)))
         return res
 
-    def find_in_fn(self, fn, anchor):
+    def find_in_fn(self, fn, anchor, occ=None):
         k, pclose, bo, end, _ = self.fn_span(fn)
         seg = self.text[k:end]
         # whitespace-insensitive anchor search
         pat = r"\s*".join(re.escape(t) for t in re.findall(r"\w+|[^\w\s]", anchor))
         hits = list(re.finditer(pat, seg))
+        if occ is not None:
+            if len(hits) < occ:
+                raise Undecided("LOST-ANCHOR: `%s` occurrence %d not found in fn %s of %s" % (anchor, occ, fn, self.where()))
+            return k + hits[occ - 1].start(), k + hits[occ - 1].end()
         if len(hits) != 1:
             raise Undecided("LOST-ANCHOR: `%s` found %d times in fn %s of %s" % (anchor, len(hits), fn, self.where()))
         return k + hits[0].start(), k + hits[0].end()
@@ -369,7 +373,7 @@ class Item:
         k = self.fn_span(fn)[0]
         q = QUAL_RE.search(self.m[:k])
         pos = q.start() if q and q.group(0) else k
-        self.ghost(pos, payload + "\n")
+        self.add(pos, pos, "/*+vx*/" + payload + "\n/*-vx*/", "ghost-attr")
         if "external_body" in payload or "external" in payload:
             self.trusted.append("%s::%s marked %s" % (self.where(), fn, payload.strip()))
 
@@ -778,7 +782,8 @@ class Item:
 
     # -- output ----------------------------------------------------------------------------------
     def render(self):
-        es = sorted(self.edits, key=lambda e: (e[0], e[1]))
+        # attributes bind to the item that follows: emit them after any other ghost text woven at the same position
+        es = sorted(self.edits, key=lambda e: (e[0], e[1], 1 if e[3] == "ghost-attr" else 0))
         for a, b in zip(es, es[1:]):
             if a[1] > b[0]:
                 raise Undecided("overlapping weave edits in %s at %d/%d" % (self.where(), a[0], b[0]))
@@ -929,6 +934,14 @@ def build_unit(unit_path, repo=REPO):
                 it.ghost(0, payload + "\n")
             elif name == "loop":
                 it.d_loop(args[0], int(args[1]), payload)
+            elif name == "stubbody":
+                # R8: the body of fn is NOT taken over (outside Verus); the fn keeps its signature and becomes an
+                # assumed contract (external_body).  Logged; listed in trusted_base.
+                k_, pc_, bo_, end_, _ = it.fn_span(args[0])
+                if bo_ is None:
+                    raise Undecided("stubbody: fn %s has no body" % args[0])
+                it.rewrite(bo_, end_, "{ unimplemented!() }", "R8-stubbody")
+                it.d_attr(args[0], "#[verifier::external_body]")
             elif name == "beforeloop":
                 ls_ = it.loops(args[0])
                 if int(args[1]) > len(ls_):
@@ -978,8 +991,31 @@ def build_unit(unit_path, repo=REPO):
             elif name == "closure":
                 # closure <fn> "<anchor: the closure text `|..| EXPR`>" <<< ensures ... >>> : names the closure's
                 # result vx_c and states its postcondition (ghost); the body EXPR stays in place, braces are added
-                a, b = it.find_in_fn(args[0], args[1])
+                occ = int(args[3][1:]) if len(args) > 3 and args[3].startswith("#") else None
+                a, b = it.find_in_fn(args[0], args[1], occ)
                 bar2 = it.text.index("|", it.text.index("|", a) + 1)
+                if args[1].rstrip().endswith("|"):
+                    # only the parameter list was given: the closure body ends at the matching brace, or at the
+                    # closing parenthesis / comma of the enclosing call
+                    j = bar2 + 1
+                    while it.m[j].isspace():
+                        j += 1
+                    if it.m[j] == "{":
+                        b = match_brace(it.m, j) + 1
+                    else:
+                        dep = 0
+                        while j < len(it.m):
+                            ch = it.m[j]
+                            if ch in "([{":
+                                dep += 1
+                            elif ch in ")]}":
+                                if dep == 0:
+                                    break
+                                dep -= 1
+                            elif ch == "," and dep == 0:
+                                break
+                            j += 1
+                        b = j
                 it.ghost(bar2 + 1, " -> (vx_c: %s)\n" % (args[2] if len(args) > 2 else "_") + payload + "\n{")
                 it.ghost(b, "}")
             elif name == "dropattrs":
@@ -1051,6 +1087,7 @@ SEMANTIC = [
     "decreases not satisfied", "recommendation not met", "index out of bounds", "possible out-of-bounds",
     "unreachable", "might not be allowed", "constructed value may fail", "possible bit shift",
     "could not prove termination", "possible truncation", "failed this",
+    "unable to prove post-condition of closure", "unable to prove pre-condition of closure",
 ]
 UNDECIDED = ["Resource limit (rlimit) exceeded", "rlimit"]
 
